@@ -32,6 +32,10 @@ def gen_case(seed, i, nperm):
     rng = Rng(derive(seed, 'C08', i))
     spec = modelgen.gen_spec(rng.fork('spec'), profile='many_ports')
     cfg = cfggen.gen_cfg(rng.fork('cfg'), spec, explicit_bias=True)
+    if rng.chance(25):
+        # file names that are not C++ identifiers (the struct name derived from them is C06's business, not C08's)
+        odd = rng.choice(['my-toaster', 'Toaster.v2', '3d printer', 'naïve_model', 'a+b', 'x' * 40])
+        cfg['dezyne_filename'] = rng.choice(['', 'models/', '/abs/dir.with.dots/']) + odd + rng.choice(['.dzn', '.json', ''])
     kind = 'valid'
     if rng.chance(15):
         # failing configuration: explicit sets naming ports the component does not have (error text must be stable too)
